@@ -297,13 +297,29 @@ fn has_nested_in(log: &[Event], k: u64) -> bool {
 }
 
 /// Check one halted run against the dry run. `k` = instruction in flight when the flag was raised.
-fn check_prefix(dry: &RunResult, dry_sigs: &[Sig], halted: &RunResult, k: u64, label: &str) -> Option<(String, String)> {
+/// `cut_short_ok`: instruction k runs a nested flow (a script-implemented command, a function called as its
+/// condition) and the flag went up before or inside it: that flow may itself stop at the flag, so the instruction in
+/// flight may end early with another answer and only part of its effects. Everything before it is compared exactly,
+/// and nothing may start after it.
+fn check_prefix(dry: &RunResult, dry_sigs: &[Sig], halted: &RunResult, k: u64, label: &str, cut_short_ok: bool) -> Option<(String, String)> {
     let hs = d0_sigs(&halted.log);
     let n = prefix_len(dry_sigs, k);
     let total = instruction_count(dry_sigs);
     if instruction_count(&hs) > k + 1 {
         let extra = hs.iter().filter_map(|s| if let Sig::Start(c, a, l, false) = s { Some((c, a, l)) } else { None }).nth((k + 1) as usize);
         return Some(("start-after-halt".to_string(), format!("{}: flag raised during instruction #{} but instruction {:?} was started afterwards", label, k, extra)));
+    }
+    if cut_short_ok {
+        let n_prev = if k == 0 { 0 } else { prefix_len(dry_sigs, k - 1) };
+        if hs.len() <= n_prev || hs[..n_prev + 1] != dry_sigs[..n_prev + 1] {
+            return Some(("prefix-divergence".to_string(), format!("{}: halted run's depth-0 events up to the start of instruction #{} are not those of the unhalted run", label, k)));
+        }
+        return match &halted.end {
+            Ok(_) => None,
+            // (the instruction in flight may have been the one that ends the unhalted run with an error)
+            Err(b) if k + 1 == total && dry.end.as_ref().err() == Some(b) => None,
+            Err(b) => Some(("halted-run-failed".to_string(), format!("{}: halted run returned an error: {}", label, b))),
+        };
     }
     if hs.len() < n || hs[..n] != dry_sigs[..n] || hs.len() > n {
         return Some(("prefix-divergence".to_string(), format!("{}: halted run's depth-0 events are not the first {} of the unhalted run's ({} seen)", label, n, hs.len())));
@@ -435,7 +451,8 @@ fn mode_a(program: &Program, env: &WorkerEnv, only: &Option<(u64, Pos)>) -> (Ver
         for p in pv {
             *probes.entry(p).or_insert(0) += 1;
         }
-        if let Some((class, detail)) = check_prefix(&dry, &dry_sigs, &halted, k, &format!("halt at #{} {:?}", k, pos)) {
+        let cut_short_ok = !matches!(pos, Pos::After | Pos::Handler) && has_nested_in(&dry.log, k);
+        if let Some((class, detail)) = check_prefix(&dry, &dry_sigs, &halted, k, &format!("halt at #{} {:?}", k, pos), cut_short_ok) {
             let seq = combined.len() as u64;
             combined.push(Event::Note { seq, text: format!("--- halted run (k={}, {:?}) ---", k, pos) });
             combined.extend(halted.log.iter().cloned());
@@ -750,7 +767,7 @@ fn mode_b(program: &Program, env: &WorkerEnv, sched: &str, sched_seed: u64, yiel
             } else {
                 *probes.entry("halt-at-or-after-last-instruction".to_string()).or_insert(0) += 1;
             }
-            match check_prefix(&dry, &dry_sigs, &halted, k, &format!("thread halt (seq {}) during instruction #{}", halt_seq, k)) {
+            match check_prefix(&dry, &dry_sigs, &halted, k, &format!("thread halt (seq {}) during instruction #{}", halt_seq, k), has_nested_in(&dry.log, k)) {
                 Some((class, detail)) => Verdict::Fail { class, detail },
                 None => Verdict::Pass,
             }
